@@ -38,6 +38,12 @@ func writerJobs(scribble int64) (quick, thorough []*Job) {
 	add(&quick, 2, 1, 2, 1, 1, 5*8+6, 0)
 	add(&quick, 1, 0, 2, 1, 1, 7*8+5, 1)
 	add(&quick, 2, 1, 1, 3, 0, 0, 0)
+	// transport calls as scheduling points (until 2/3)
+	add(&quick, 1, 3, 2, 1, 1, 1*8+0, 0)
+	add(&quick, 2, 2, 2, 1, 1, 3*8+4, 1)
+	add(&quick, 0, 2, 2, 1, 1, 2*8+1, 2)
+	add(&thorough, 2, 3, 2, 2, 1, 1*8+0, 0)
+	add(&thorough, 1, 2, 3, 1, 1, 2*64+1*8+0, 1)
 	thorough = append(thorough, &Job{Pkg: "", Func: "ZZ_C01_Writers", Args: []int64{1, 1, 2, 2, 2, 1*8 + 0, 0, scribble}, Bounds: b, Limit: 3000e9})
 	bs := "single writer, payload sizes {0,1,1023,1024,1025,2048,65536,65537} with symbolic contents through each entry point, followed by a 2-byte write through the next entry point"
 	for e := int64(0); e < 8; e++ {
